@@ -18,9 +18,9 @@ P = {
          "Every sub-score key of the environmental equation is executed with all CDP/TD pairs; thorough executes the entire 141 M-vector domain. Mismatches are attributed to the recorded finding only for listed keys with the recorded value.", "4/C05", TB),
  "C06": (True, "runtime monitor: rider on the exhaustive C01-C05 enumerations; per-observation grid/range/format/band oracle on integer tenths",
          "Every (score, severity) pair produced by the exhaustive enumerations of all levels and versions is checked; evidence lists which tenths and band edges were actually observed per level.", "4/C06", TB),
- "C07": (True, "runtime monitor: string-language differential - every workload string at all three decoders against a reference recogniser written from the property text; workload = all valid vectors' covering family, every single-character edit at every position of seed vectors, closed token-edit catalogue, double edits, token-level exhaustive enumeration, random bytes",
+ "C07": (True, "runtime monitor: string-language differential - every workload string at all three decoders against a reference recogniser written from the property text; workload = all valid vectors' covering family, every single-character edit at every position of seed vectors (alphabet, byte- and rune-level relatives, percent escapes), closed token-edit catalogue incl. block moves, double/triple edits, count/length threshold sweep, token-level exhaustive enumeration, random bytes; three receiver modes (fresh, nil, queried before Decode); valid vectors interleaved throughout",
          "Acceptance is a property of an unbounded string language; the monitor decides the strings it runs (millions per run, the complete 1-edit neighbourhood of hundreds of seed vectors). No claim beyond those.", "4/C07", TB),
- "C08": (True, "runtime monitor: string-language differential - every workload string at all three decoders against a reference recogniser written from the property text; workload = all valid vectors' covering family, every single-character edit at every position of seed vectors, closed token-edit catalogue, double edits, token-level exhaustive enumeration, random bytes",
+ "C08": (True, "runtime monitor: string-language differential - every workload string at all three decoders against a reference recogniser written from the property text; workload = all valid vectors' covering family, every single-character edit at every position of seed vectors (alphabet, byte- and rune-level relatives, percent escapes), closed token-edit catalogue incl. block moves, double/triple edits, count/length threshold sweep, token-level exhaustive enumeration, random bytes; three receiver modes (fresh, nil, queried before Decode); valid vectors interleaved throughout",
          "Same as C07 for the canonical v2 language (group completeness, order, level).", "4/C08", TB),
  "C09": (True, "runtime monitor: exported-field oracle (metric code -> library constant by name) + metamorphic equality of the full observation across token orders and X spelled/omitted, over the valid-side corpus",
          "Every corpus vector (all base combinations x seeded optional subsets; all 73,629 v2 vectors +/- environmental group) is decoded at every admitting decoder in three spellings; fields are compared with the harness's own assignment and the full observation must not depend on the spelling.", "4/C09", TB),
@@ -28,23 +28,23 @@ P = {
          "Every corpus vector at every admitting decoder: Encode() text equals the harness's canonical string, String()==Encode(), and re-decoding the encoding reproduces fields, scores, severities and encoding.", "4/C10", TB),
  "C11": (True, "runtime monitor: errors.Is census over all 11 sentinels on every rejected workload string at all six decoders, against a reference defect classifier; sharp single-classified-edit catalogue per metric and position",
          "Every rejection observed must match exactly one sentinel, inside the set of defects the classifier finds; single-defect inputs (about 1 M per quick run) must report exactly their class. Evidence holds the class x sentinel matrix.", "4/C11", TB),
- "C12": (True, "runtime monitor: recover()-wrapped calls + process-crash detection over hostile inputs, nil receivers, fresh objects, objects left behind by failed decodes, single-field resets; assertion oracle on (object, error) shape and on error/zero-score of invalid objects",
+ "C12": (True, "runtime monitor: recover()-wrapped calls + process-crash detection over hostile inputs (incl. count/length thresholds and continuation-byte runs), nil receivers, fresh and queried-before-decode objects, objects left behind by failed decodes, second Decode on a used receiver, single- and multi-field resets, out-of-range field integers; assertion oracle on (object, error) shape and on error/zero-score of invalid objects",
          "All workload and hostile strings at all six decoders through both receivers; the observer sweep covers every observer method on every object state the quantifier names. One genuine defect found and fixed (nil-receiver IsEmpty).", "4/C12", TB),
  "C13": (True, "runtime monitor: relational oracle between two scores of the same decoded vector over the exhaustive domains",
          "Relations (ND-neutrality, TD:N => 0, temporal <= base) are checked on every vector of the finite domains (v2 TD:N on every sub-score key in quick, all 28 M in thorough); no spec oracle involved.", "4/C13", TB),
  "C14": (True, "runtime monitor: differential between the views of a higher-level object and an independent lower-level decode of the projected token list",
          "Every temporal/environmental corpus vector: BaseMetrics(), TemporalMetrics(), nested views and exported embedded objects must report what an independent lower-level decoder reports for the projection.", "4/C14", TB),
- "C15": (True, "runtime monitor: per-object history monitor (exported state compared after every operation, every result compared with the first, twins before/after), mutate/query/restore steps, cross-process order-permutation differential, before/after API snapshot of all package tables",
+ "C15": (True, "runtime monitor: per-object history monitor (exported state compared after every operation, every result compared with the first, twins before/after), mutate/query/restore steps, cross-process order-permutation differential, before/after API snapshot of all package tables, live-object pool, views kept after their owner was collected, revisits, forced garbage collections",
          "Bounded random query histories on thousands of objects of all six types and origins; the same multiset of (vector, operation) pairs executed by several child processes in different orders and by cold single-pair processes must give identical digests; repeated lookups expose duplicated codes.", "4/C15", TB),
- "C16": (True, "Go race detector (-race build, GORACE halt_on_error=0 + log_path, reports counted from log files and de-duplicated by outermost library frame pair) over a concurrent stress workload with cold starts; concurrent-vs-sequential result differential; offline overlap-matrix analysis of the recorded call/return history",
+ "C16": (True, "Go race detector (-race build, GORACE halt_on_error=0 + log_path, reports counted from log files and de-duplicated by outermost library frame pair) over a concurrent stress workload with cold starts, never-queried shared objects per phase, shared report objects and a shared option array, reader faults, accumulating distinct templates, one round in three under GOGC=5; concurrent-vs-sequential result differential; offline overlap-matrix analysis of the recorded call/return history",
          "The race detector generalises over timing for every pair of accesses it sees; the workload shares decoded objects and report objects between 8-64 goroutines without any synchronisation of the monitor's own, makes the first library use of every process concurrent, and repeats rounds until every operation pair has actually overlapped; says nothing about code the workload did not reach.", "4/C16", TB),
- "C17": (True, "runtime monitor: reflection-enumerated report fields against the harness's wiring table (field -> metric/level/names function), all base vectors x levels x languages",
+ "C17": (True, "runtime monitor: reflection-enumerated report fields against the harness's wiring table (field -> metric/level/names function), all base vectors x vector levels x report levels x languages; reports and embedded reports re-read after later reports were built / after their owner was collected",
          "Every exported field of the three report structs, including shadowed fields through embedded reports, is compared for every base vector with seeded extensions chosen so that neighbouring like-typed metrics differ (counted), in English, Japanese and other languages.", "4/C17", TB),
- "C18": (True, "runtime monitor: exhaustive enumeration of the 52 names functions x enumeration integers x language tags with totality/injectivity/fallback oracles; registry completeness via go/parser",
+ "C18": (True, "runtime monitor: exhaustive enumeration of the 52 names functions x enumeration integers x language tags with totality/injectivity/fallback oracles, run by 8 goroutines at once and in fresh child processes with other first lookups; registry completeness via go/parser",
          "The whole finite domain of functions x values is executed for English and Japanese; the fallback is executed for 37 tags whose language is neither (incl. lookalike codes enm/jam/jv); regional variants are exercised but not judged.", "4/C18", TB),
- "C19": (True, "runtime monitor: differential against Go's text/template (same toolchain) on a seeded template grammar (valid and invalid) x reports of three levels x two languages; reader-equivalence monitor; fault injection through the caller-supplied io.Reader (failing after k bytes, nil reader, nil report)",
+ "C19": (True, "runtime monitor: differential against Go's text/template (same toolchain) on a seeded template grammar (valid and invalid) x reports of three levels x two languages; reader-equivalence monitor over many reader shapes (files at offsets, pipes, bufio, chunked, stuttering, data+EOF); fault injection through the caller-supplied io.Reader (failing after k bytes, nil reader, nil report); held readers, re-exports, small-piece reads",
          "All template texts is an unbounded set: the monitor decides the templates it generates (20 k quick / 1 M thorough), including failures that strike after output was produced; readers of many shapes must be equivalent to the string path.", "4/C19", TB),
- "C20": (True, "runtime monitor: exhaustive per-metric table check (codes, constants by name, weights as identical float64, dependent weights) + all strings of length <= 3 as codes, lookups repeated for map-iteration nondeterminism",
+ "C20": (True, "runtime monitor: exhaustive per-metric table check (codes, constants by name, weights as identical float64, dependent weights) + all strings of length <= 3 as codes, wide out-of-range integer sweep, lookups repeated for map-iteration nondeterminism, in two passes and from 8 goroutines at once",
          "Finite tables: every code, every enumeration integer, every dependent-weight combination is executed; 'every other string' is covered by all alphanumeric strings up to length 3 (4 upper-case in thorough) plus adversarial ones.", "4/C20", TB),
 }
 checks, na = [], []
